@@ -251,28 +251,26 @@ def check_helper(ctx, rule, key, h, rules=None):
     kind = h["kind"]
     form = "ref" if kind in ("verify", "decrypt") else "builder"
     struct_t = structure_arg(args[-1]) if args else None
-    # the structure argument: a call of `via` on self / self.0 with the forwarded parameters
-    via = h["via"]
-    if not (struct_t is not None and is_call(struct_t, via)):
-        problems.append("last closure argument is %s, expected the bytes from %s" % (show(struct_t)[:80] if struct_t else None, via))
-    elif "fwd" in h:
-        a = list(struct_t[2])
-        self_t = strip_ref(a[0])
-        want_self = ("param", 0) if form == "ref" else ("field", ("param", 0), "0")
-        if kind == "verify" and self_t != ("param", 0):
-            problems.append("structure is computed on %s, not on self" % show(self_t)[:60])
-        if kind in ("create", "create-sig", "encrypt") and self_t not in (want_self, ("param", 0)):
-            problems.append("structure is computed on %s, not on the builder's message" % show(self_t)[:60])
-        for want, got in zip(h["fwd"], a[1:]):
-            g = strip_ref(got)
-            if want == "sig":
-                ok = is_call(g, "core::ops::index::Index::index") and strip_ref(g[2][0]) == ("field", ("deref", ("param", 0)), "signatures") and g[2][1] == ("param", 1)
-            elif want == "sig1":
-                ok = g == ("param", 1)
-            else:
-                ok = g == ("param", want)
-            if not ok:
-                problems.append("argument forwarded to %s is %s, expected %s" % (via.split("::")[-1], show(g)[:60], want))
+    # the structure argument: bytes produced (through crate-local wrappers) by the structure function with the abstract
+    # arguments the table prescribes for this helper
+    a = abstract_structure(prog, key)
+    if not (struct_t is not None and is_call(struct_t) and struct_t[1] in prog.fns) or a is None:
+        problems.append("last closure argument is %s, expected the bytes of a structure function" % (show(struct_t)[:80] if struct_t else None))
+    else:
+        via = h["via"]
+        if key in ROUTING:
+            want = expected_structure(ROUTING[key])
+        else:
+            actual = [("SELF",)]
+            for w in h.get("fwd", []):
+                if w == "sig":
+                    actual.append(("call", "core::ops::index::Index::index", (("field", ("SELF",), "signatures"), ("P", 1))))
+                elif w == "sig1":
+                    actual.append(("P", 1))
+                else:
+                    actual.append(("P", w))
+            want = tuple(_subst(x, actual) if not isinstance(x, str) else x for x in expected_structure(ROUTING[via]))
+        problems.extend(compare_abstract(a[0], want))
     if kind == "verify":
         stored = strip_deref_call(args[0]) if len(args) == 2 else None
         if h["stored"].startswith("signatures["):
@@ -309,3 +307,279 @@ def strip_deref(t):
     while isinstance(t, tuple) and t and t[0] in ("deref", "ref"):
         t = t[1]
     return t
+
+
+# ---- abstract structure reached from a function, inlining crate-local wrappers -------------------------------
+_ABS_MEMO = {}
+
+
+def _norm(t):
+    """normalise self forms ((*self).x, self.0.x by value or by ref) to ('SELF',); own parameters to ('P', i);
+    drop references / derefs / Deref::deref coercions"""
+    if not isinstance(t, tuple) or not t:
+        return t
+    if t in (("param", 0), ("deref", ("param", 0)), ("field", ("param", 0), "0"), ("field", ("deref", ("param", 0)), "0")):
+        return ("SELF",)
+    k = t[0]
+    if k == "param":
+        return ("P", t[1])
+    if k == "call":
+        if t[1] == DEREF:
+            return _norm(t[2][0])
+        return ("call", t[1], tuple(_norm(a) for a in t[2]))
+    if k == "aggr":
+        return ("aggr", t[1], t[2], tuple((n, _norm(x)) for n, x in t[3]))
+    if k in ("field", "variant"):
+        return (k, _norm(t[1]), t[2])
+    if k in ("deref", "ref"):
+        return _norm(t[1])
+    if k == "tuple":
+        return ("tuple", tuple(_norm(x) for x in t[1]))
+    if k == "binop":
+        return (k, t[1], _norm(t[2]), _norm(t[3]))
+    if k == "unop":
+        return (k, t[1], _norm(t[2]))
+    if k == "discr":
+        return (k, _norm(t[1]))
+    if k == "tryok":
+        return (k, _norm(t[1]))
+    if k == "cast" and t[1] == "PointerCoercion":
+        return _norm(t[2])      # unsizing `&[T; N]` -> `&[T]` etc.
+    return t
+
+
+def _subst(t, actual):
+    if not isinstance(t, tuple) or not t:
+        return t
+    if t == ("SELF",):
+        return actual[0] if actual else t
+    if t[0] == "P":
+        return actual[t[1]] if t[1] < len(actual) else t
+    if t[0] == "call":
+        return ("call", t[1], tuple(_subst(a, actual) for a in t[2]))
+    if t[0] == "aggr":
+        return ("aggr", t[1], t[2], tuple((n, _subst(x, actual)) for n, x in t[3]))
+    if t[0] in ("field", "variant"):
+        return (t[0], _subst(t[1], actual), t[2])
+    if t[0] == "tuple":
+        return ("tuple", tuple(_subst(x, actual) for x in t[1]))
+    if t[0] == "binop":
+        return (t[0], t[1], _subst(t[2], actual), _subst(t[3], actual))
+    if t[0] in ("unop",):
+        return (t[0], t[1], _subst(t[2], actual))
+    if t[0] in ("discr", "tryok"):
+        return (t[0], _subst(t[1], actual))
+    return t
+
+
+def abstract_structure(prog, key, depth=0):
+    """(args, conds, chain): the structure function and normalised arguments that the bytes produced by `key` come from,
+    the path conditions collected along the way (normalised, `?` edges dropped) and the chain of functions inlined.
+    None if `key` does not (transitively, through exactly one call) build a structure."""
+    mk = (id(prog), key)
+    if mk in _ABS_MEMO:
+        return _ABS_MEMO[mk]
+    _ABS_MEMO[mk] = None
+    f = prog.fns.get(key)
+    if f is None or not f.blocks or depth > 4:
+        return None
+    pv = Prov(f)
+    res = None
+    direct = [(bb, t) for bb, t in f.calls() if callee_path(t) in STRUCTURES]
+    if len(direct) == 1:
+        bb, t = direct[0]
+        from lib.prov import resolve_consts
+        args = tuple(_norm(_resolve_promoted(prog, pv.operand_term(a, bb, "term"))) for a in t["args"])
+        cs = _norm_conds(prog, pv, f, bb)
+        res = ((callee_path(t),) + args, cs, [key])
+    elif not direct:
+        cands = []
+        for bb, t in f.calls():
+            g = callee_path(t)
+            if g and g in prog.fns and g != key and prog.fns[g].blocks:
+                sub = abstract_structure(prog, g, depth + 1)
+                if sub is not None:
+                    cands.append((bb, t, sub))
+        if len(cands) == 1:
+            bb, t, (sargs, sconds, chain) = cands[0]
+            actual = [_norm(_resolve_promoted(prog, pv.operand_term(a, bb, "term"))) for a in t["args"]]
+            args = (sargs[0],) + tuple(_subst(x, actual) for x in sargs[1:])
+            cs = _norm_conds(prog, pv, f, bb) + [(_subst(c[0], actual), c[1], c[2]) for c in sconds]
+            res = (args, cs, [key] + chain)
+    _ABS_MEMO[mk] = res
+    return res
+
+
+def _norm_conds(prog, pv, f, bb):
+    out = []
+    for c in conditions(f, pv, bb):
+        if _is_try_edge(c):
+            continue
+        subj = c[0]
+        if subj[0] == "discr":
+            cv = None
+            from lib.guards import cond_variants
+            cv = cond_variants(prog, pv, c)
+            if cv:
+                out.append((("discr", _norm(cv[0])), "variants", tuple(sorted(cv[1]))))
+                continue
+        out.append((_norm(subj), c[1], c[2]))
+    return out
+
+
+def expected_structure(r):
+    """abstract argument tuple a ROUTING row prescribes"""
+    spec = STRUCTURES[r["fn"]]
+    out = [r["fn"]]
+    if isinstance(r["context"], tuple):
+        out.append(("P", r["context"][1]))
+    else:
+        out.append(("aggr", spec["ctx_enum"], r["context"], ()))
+    out.append(("call", CLONE_PH, (("field", ("SELF",), "protected"),)))
+    if r["fn"] == "sign::sig_structure_data":
+        if r["sign"] == "none":
+            out.append(("aggr", "core::option::Option", "None", ()))
+        else:
+            out.append(("aggr", "core::option::Option", "Some",
+                        (("0", ("call", CLONE_PH, (("field", ("P", r["sign"][1]), "protected"),))),)))
+    out.append(("P", r["aad"]))
+    if r["payload"] is not None:
+        as_ref = ("call", "core::option::Option::<T>::as_ref", (("field", ("SELF",), "payload"),))
+        if r["payload"] == "self-or-empty":
+            out.append("OR-EMPTY")
+        elif r["payload"] == "self-required":
+            out.append("EXPECT")
+        else:
+            out.append(("P", r["payload"][1]))
+    return tuple(out)
+
+
+def _resolve_promoted(prog, t):
+    """replace promoted constants (`&[]`, `&CONST`) by their value terms"""
+    from lib.prov import promoted_term
+    if not isinstance(t, tuple) or not t:
+        return t
+    if t[0] == "promoted":
+        return promoted_term(prog, t[1], t[2])
+    if t[0] == "call":
+        return ("call", t[1], tuple(_resolve_promoted(prog, a) for a in t[2])) + tuple(t[3:])
+    if t[0] == "aggr":
+        return ("aggr", t[1], t[2], tuple((n, _resolve_promoted(prog, x)) for n, x in t[3]))
+    if t[0] in ("ref",):
+        return (t[0], _resolve_promoted(prog, t[1]), t[2])
+    if t[0] in ("deref", "tryok"):
+        return (t[0], _resolve_promoted(prog, t[1]))
+    if t[0] in ("field", "variant"):
+        return (t[0], _resolve_promoted(prog, t[1]), t[2])
+    if t[0] == "cast":
+        return (t[0], t[1], _resolve_promoted(prog, t[2]), t[3])
+    return t
+
+
+SELF_PAYLOAD_VIEWS = (("call", "core::option::Option::<T>::as_ref", (("field", ("SELF",), "payload"),)),
+                      ("call", "core::option::Option::<T>::as_deref", (("field", ("SELF",), "payload"),)))
+EMPTY_BYTES = (("call", "alloc::vec::Vec::<T>::new", ()), ("array", ()))
+
+
+def is_self_payload_or_empty(g):
+    """self.payload if present, else the empty string - in any of the equivalent std spellings"""
+    if g[0] != "call":
+        return False
+    if g[1] == "core::option::Option::<T>::unwrap_or" and len(g[2]) == 2:
+        return g[2][0] in SELF_PAYLOAD_VIEWS and g[2][1] in EMPTY_BYTES
+    if g[1] == "core::option::Option::<T>::unwrap_or_default" and len(g[2]) == 1:
+        return g[2][0] in SELF_PAYLOAD_VIEWS
+    return False
+
+
+def is_self_payload_required(g):
+    """self.payload, diverging (documented panic) when absent"""
+    return (g[0] == "call" and g[1] in ("core::option::Option::<T>::expect", "core::option::Option::<T>::unwrap")
+            and g[2][0] in SELF_PAYLOAD_VIEWS)
+
+
+def compare_abstract(args, want):
+    problems = []
+    if args[0] != want[0]:
+        problems.append("reaches %s instead of %s" % (args[0], want[0]))
+    if len(args) != len(want):
+        problems.append("argument count differs")
+    for i, (g, w) in enumerate(zip(args[1:], want[1:]), 1):
+        if w == "EXPECT":
+            ok = is_self_payload_required(g)
+        elif w == "OR-EMPTY":
+            ok = is_self_payload_or_empty(g)
+        else:
+            ok = g == w
+        if not ok:
+            problems.append("structure argument %d is %s, expected %s" % (i, show(g)[:90], {
+                "EXPECT": "self.payload (refusing a missing one)", "OR-EMPTY": "self.payload or the empty string"}.get(w) or show(w)[:90]))
+    return problems
+
+
+def check_routing_inlined(ctx, rule, sfn):
+    """R-3: every ROUTING entry point reaches the structure function with exactly the prescribed abstract arguments
+    (crate-local wrappers are inlined), under the prescribed guards; and every direct call site of the structure
+    function lies on the inlining chain of some entry point (who-may-call)."""
+    prog = ctx.prog
+    covered = set()
+    for key, r in sorted(ROUTING.items()):
+        if r["fn"] != sfn:
+            continue
+        a = abstract_structure(prog, key)
+        if a is None:
+            ctx.ob(rule, "routing:%s" % key, False, "%s produces its bytes through exactly one call chain ending in %s" % (key, sfn),
+                   where=prog.fns[key].span if key in prog.fns else None, kind="cannot-decide" if key in prog.fns else "missing-anchor")
+            continue
+        args, conds, chain = a
+        covered |= set(chain)
+        want = expected_structure(r)
+        problems = []
+        if args[0] != sfn:
+            problems.append("reaches %s instead of %s" % (args[0], sfn))
+        problems.extend(compare_abstract(args, want))
+        if isinstance(r["context"], tuple):
+            P = ("P", r["context"][1])
+            allowed = None
+            for c in conds:
+                if c[0] == ("discr", P) and c[1] == "variants":
+                    allowed = set(c[2]) if allowed is None else allowed & set(c[2])
+            if allowed != RECIPIENT_CONTEXTS:
+                problems.append("reached for contexts %s, must be exactly the three recipient contexts" % (sorted(allowed) if allowed else "any"))
+        if isinstance(r["payload"], tuple):
+            guarded = any(c[0] == ("call", "core::option::Option::<T>::is_none", (("field", ("SELF",), "payload"),)) and
+                          ((c[1] == "ne" and c[2] == (0,)) or (c[1] == "eq" and c[2] == 1)) for c in conds)
+            if not guarded:
+                problems.append("the detached payload is used without the `self.payload.is_none()` check on the path")
+        ctx.ob(rule, "routing:%s" % key, not problems,
+               "%s builds its structure from (context %s, self.protected, %saad=arg%d%s)%s" % (
+                   key, r["context"], "" if r["sign"] is None else "sign=%s, " % (r["sign"],), r["aad"],
+                   "" if r["payload"] is None else ", payload=%s" % (r["payload"],),
+                   "" if len(chain) == 1 else " via " + " -> ".join(c.split("::")[-1] for c in chain[1:])),
+               where=prog.fns[key].span, detail={"problems": problems, "args": [show(x)[:100] for x in args], "chain": chain},
+               sample={"entry": key, "args": [show(x)[:80] for x in args[1:]], "chain": chain})
+    sites = structure_call_sites(prog, sfn)
+    stray = sorted({f.key for f, _ in sites} - covered)
+    ctx.ob(rule, "who-may-call:%s" % sfn, not stray,
+           "every direct call of %s lies on the call chain of a table entry point (no other function builds this structure)" % sfn,
+           detail={"uncovered_callers": stray})
+
+
+def check_carriers(ctx, rule, types):
+    """the carriers' decoders keep the received protected bytes (C02 R-2 restricted to this family)"""
+    from lib.veclen import VecLen
+    from rules.c09 import decoder_key
+    from spec.rfc8152 import STRUCTS
+    prog = ctx.prog
+    for ty in types:
+        f = prog.fn(decoder_key(ty))
+        pv = Prov(f)
+        vl = VecLen(f)
+        agg = codec.OkAggregate(f, pv)
+        if agg.problem or "protected" not in agg.fields:
+            ctx.cannot(rule, "wire-slot:%s" % ty, "cannot read the decoder of %s" % ty, where=f.span)
+            continue
+        d = codec.slot_kind(prog, f, pv, vl, agg, "protected")
+        ctx.ob(rule, "wire-slot:%s" % ty, d["kind"] == "protected" and d["slot"] == 0,
+               "%s.protected = ProtectedHeader::from_cbor_bstr(<array slot 0>)? - the received bytes are retained for the structure" % ty,
+               where=f.span, detail={"found": d})
